@@ -309,7 +309,18 @@ func (p *SackPeer) synAckBytes(local netip.Addr, lp uint16, isn uint32) []byte {
 // OnReadStart must be chained into Wire.OnReadStart: at the first read after the SYN-ACK filter was
 // installed the dial has completed, so the connection is in the accept queue; its remote address is
 // the tool's local address and port.
-func (p *SackPeer) OnReadStart(w *simnet.Wire, h *simnet.Handle) {
+func (p *SackPeer) OnReadStart(w *simnet.Wire, h *simnet.Handle) { p.synAckNow(w, h) }
+
+// OnBeforeFilter must be chained into Wire.OnBeforeFilter: when the tool replaces the SYN-ACK filter, the dial has
+// returned, so on a real interface the SYN-ACK has long been queued on the capture socket - it is queued here before
+// the new filter (and the drain that goes with installing it) takes effect.
+func (p *SackPeer) OnBeforeFilter(w *simnet.Wire, h *simnet.Handle, spec packets.PacketFilterSpec) {
+	if spec.FilterType != packets.FilterTypeSYNACK {
+		p.synAckNow(w, h)
+	}
+}
+
+func (p *SackPeer) synAckNow(w *simnet.Wire, h *simnet.Handle) {
 	p.mu.Lock()
 	if !p.pending[h.Idx] {
 		p.mu.Unlock()
